@@ -159,6 +159,12 @@ class Gen:
             self.items.append({'k': 'create_memzone', 'name': nm, 'start': s, 'end': s + 15})
             self.pending_probes.append(('zone', nm))
             self.tags.add('effect:create_memzone')
+        elif r < 0.78 and self.zone_n < 6:
+            self.zone_n += 0
+            self.org_n = getattr(self, 'org_n', 0) + 1
+            self.items.append({'k': 'orgjump', 'addr': 0x400 + 0x20 * self.org_n})
+            self.marker()
+            self.tags.add('effect:origin')
         elif r < 0.84 and self.o.get('mute', True):
             self.items.append({'k': 'mute'})
             self.marker()
@@ -181,6 +187,9 @@ class Gen:
         for _ in range(n):
             r = rng.random()
             self.marker()
+            if getattr(self, 'unmute_in_branches', False) and depth > 0 and rng.random() < 0.5:
+                self.items.append({'k': rng.choice(['unmute', 'unmute', 'mute'])})
+                self.marker()
             if depth > 0 and r < 0.45:
                 self.effect(depth)
             if r > 0.55 and depth < self.o.get('max_depth', 4) and self.next_marker < 170:
@@ -191,6 +200,15 @@ class Gen:
         rng = self.rng
         r = rng.random()
         guard = None
+        outer_mute = False
+        if depth == 0 and self.o.get('mute', True) and rng.random() < 0.2:
+            # a mute that is in effect around the whole chain; branches contain #unmute / #emit / #mute directives,
+            # which must count only in the selected branch
+            self.items.append({'k': 'mute'})
+            self.marker()
+            outer_mute = True
+            self.unmute_in_branches = True
+            self.tags.add('effect:unmute-inside-branch-while-muted')
         if r < 0.45:
             self.items.append({'k': 'if', 'cond': self.condition()})
             self.tags.add('opener:if')
@@ -218,6 +236,14 @@ class Gen:
             self.tags.add('has-else')
             self.block(depth + 1)
         self.items.append({'k': 'endif'})
+        if outer_mute:
+            self.unmute_in_branches = False
+            self.marker()
+            self.marker()
+            self.items.append({'k': 'unmute'})
+            self.items.append({'k': 'unmute'})
+            self.items.append({'k': 'unmute'})
+            self.marker()
         if depth == 0:
             self.flush_probes()
         self.tags.add(f'depth:{depth + 1}')
@@ -275,10 +301,12 @@ def render(items, rng):
             out.append(it['text'])
         elif k == 'create_memzone':
             out.append(f"#create_memzone {it['name']} {it['start']} {it['end']}")
+        elif k == 'orgjump':
+            out.append(f".org {it['addr']}")
         elif k == 'mute':
             out.append('#mute')
         elif k == 'unmute':
-            out.append('#unmute')
+            out.append('#unmute' if rng is None or rng.random() < 0.6 else '#emit')
         elif k == 'include':
             out.append(f'#include "{it["file"]}"')
         elif k == 'zoneprobe':
@@ -340,6 +368,8 @@ def model(items, presyms):
             lines.append({'k': 'memzone', 'name': it['name']})
             lines.append({'k': 'data', 'width': 1, 'vals': [it['v']], 'marker': it['v'], 'ctx': 'zoneprobe'})
             lines.append({'k': 'memzone', 'name': 'GLOBAL'})
+        elif k == 'orgjump':
+            lines.append({'k': 'org', 'addr': it['addr'], 'zone_name': None})
         elif k == 'mute':
             lines.append({'k': 'mute'})
         elif k == 'unmute':
@@ -373,7 +403,7 @@ class C08(core.Check):
     required_buckets = {b: 3 for b in [
         'opener:if', 'opener:ifdef', 'opener:ifndef', 'has-elif', 'has-else', 'depth:2', 'depth:3',
         'define-inside-block-that-tests-it', 'effect:define', 'effect:label', 'effect:constant', 'effect:create_memzone',
-        'effect:mute', 'effect:include', 'if:bare-literal', 'if:bare-symbol', 'if:text-comparison', 'if:op==', 'if:op!=',
+        'effect:mute', 'effect:include', 'effect:origin', 'effect:unmute-inside-branch-while-muted', 'if:bare-literal', 'if:bare-symbol', 'if:text-comparison', 'if:op==', 'if:op!=',
         'if:op>', 'if:op>=', 'if:op<', 'if:op<=', 'ctx:unsel:nested-in-unselected', 'ctx:unsel:earlier-branch-taken',
         'ctx:unsel:condition-false', 'numeric-vs-text-disagree', 'stray:else', 'stray:elif', 'stray:endif',
         'source:cli', 'source:isa']}
